@@ -567,6 +567,12 @@ def main(argv=None):
     os.makedirs(evdir, exist_ok=True)
     with open(os.path.join(evdir, prop + ".json"), "w") as f:
         json.dump(ev, f, indent=1)
+    if os.path.realpath(REPO) != "/repo":
+        # a run against another tree regenerated Generated/*.lean from THAT tree: put the committed snapshot
+        # (= /repo's) back so that the next build in this checkout is about /repo again
+        gen = [os.path.relpath(p, VERIF) for p in lean_closure(mod) if os.sep + "Generated" + os.sep in p]
+        if gen:
+            sh(["git", "checkout", "--"] + gen, cwd=VERIF)
     for l in lines:
         print(l)
     print(
